@@ -77,14 +77,21 @@ def rule_n1_n2(chk: Check) -> None:
         # escaped reserved characters are data, not delimiters: they stay escaped
         ("escaped slash in path, escaped ampersand in query", "example.org", None, "/files/a%2Fb", "q=salt%26pepper&x=1", "example.org", "/files/a%2Fb"),
         ("escaped percent and equals", "example.org", None, "/100%25/x%3Dy", "k=%3D%2B", "example.org", "/100%25/x%3Dy"),
+        # the path is relayed as sent: dot segments, doubled slashes and a trailing slash are
+        # part of what the caller asked for (handlers and access rules resolve them themselves)
+        ("dot segments and doubled slashes", "example.org", None, "/a/../b//c/./d/", "x=1", "example.org", "/a/../b//c/./d/"),
+        ("dot segments behind an escaped slash", "example.org", 1966, "/pub%2Fx/../secret.gmi", "", "example.org:1966", "/pub%2Fx/../secret.gmi"),
     ]
+    # urlparse().hostname is lower-cased and unbracketed, .netloc is as written
+    netloc_as_written = {"mixed-case host (lower-cased by urlparse().hostname)": "ExAmple.ORG:1966"}
+    samples.append(("mixed-case host (lower-cased by urlparse().hostname)", "example.org", 1966, "/Docs/A", "", "example.org:1966", "/Docs/A"))
     for name, host, port, path, query, want_auth, want_path in samples:
         interp = Interp(chk.proj, fi)
         interp.oracle = {
             f"{P}.scheme": lit("gemini"), f"{P}.hostname": lit(host), f"{P}.username": NoneV(), f"{P}.password": NoneV(),
             f"{P}.fragment": lit(""), f"{P}.port": IntV(port, port) if port is not None else NoneV(),
             f"{P}.path": lit(path), f"{P}.query": lit(query), f"{P}.params": lit(""),
-            f"{P}.netloc": lit((f"[{host}]" if ":" in host else host) + (f":{port}" if port is not None else "")),
+            f"{P}.netloc": lit(netloc_as_written.get(name) or ((f"[{host}]" if ":" in host else host) + (f":{port}" if port is not None else ""))),
         }
         watch_exprs = list(tup.elts)
         fields = {}
@@ -127,7 +134,7 @@ def rule_n1_n2(chk: Check) -> None:
         exp_fields = (("hostname", host), ("path", want_path), ("port", port if port is not None else 1965), ("query", query))
         okf = fvals == {exp_fields}
         if not okf:
-            chk.finding("N2", fi.key, f"fields:{name}", f"ParsedURL fields for {name} are {sorted(fvals)}, expected {exp_fields}: the normalised string and the fields no longer denote the same URL", ctor[0].where() if ctor else fi.loc())
+            chk.finding("N2", fi.key, f"fields:{name}", f"ParsedURL fields for {name} are {sorted(map(str, fvals))}, expected {exp_fields}: the normalised string and the fields no longer denote the same URL", ctor[0].where() if ctor else fi.loc())
         chk.ob("N2", f"{name}: fields = components", okf)
     # normalized field is the urlunparse result
     okn = False
@@ -174,6 +181,22 @@ def rule_n3(chk: Check) -> None:
     chk.ob("N3", "normalize_url returns parse_url(url).normalized", ok4, nontrivial=False)
     if not ok4:
         chk.finding("N3", nm.key, "normalize-url", "normalize_url does not return parse_url(url).normalized", nm.loc())
+
+
+def wire_fidelity(chk: Check, rule: str, what: str) -> None:
+    """N1-N3 reported under another property's rule id: the URL a component is
+    handed (middleware, upstream, TOFU key) has the components the caller asked
+    for."""
+    before, nob = len(chk.findings), len(chk.obligations)
+    rule_n1_n2(chk)
+    rule_n3(chk)
+    for f in chk.findings[before:]:
+        f.rule = rule
+    for o in chk.obligations[nob:]:
+        o["rule"] = f"{chk.prop}.{rule}"
+    for r in ("N1", "N2", "N3"):
+        chk.rules.pop(r, None)
+    chk.rules[rule] = what
 
 
 def run(chk: Check) -> None:
